@@ -30,7 +30,8 @@ RULE = ("one generated document set (1..3 containers x 1..3 layers, colliding lo
 ASSUMPTIONS = [
     "ODX ids are unique within one layer fragment and, except in the class 'sibling-id-reuse', within one XML document; document and layer short names are unique in the set",
     "class sibling-id-reuse: sibling layers of one container re-use local ids for layer-local objects; a reference without DOCREF inside a layer names that layer's own object (innermost fragment first); what such an id names from a sibling that does not carry it or through a DOCREF to the container fragment is not asserted",
-    "a reference without DOCREF inside a layer may name an object of the layer, of a layer it imports, or of the enclosing container document; when an imported id collides with an id of the container either object is accepted",
+    "a reference without DOCREF inside a layer may name an object of the layer, of a layer it imports, or of the enclosing container document; ",
+    "an id the referring layer does not carry itself but exactly one ECU-SHARED-DATA it imports does names the imported object even if a sibling layer of the container carries the same id (imported objects behave as if the importing layer defined them, the layer fragment is searched first); collision with the container element's own id or between two imports is not asserted",
     "IMPORT-REFs extend the importing layer only and are not transitive; an id that a DOCREF'ed layer merely imports is not carried by that layer's fragment",
     "short-name references of an object are resolved in the view (local objects override inherited ones) of the layer that owns the object; after retarget_snrefs(db, X) those owned by X and its transitive parents follow X's view",
     "whether objects visible only through IMPORT-REF can be named by SNREF is not asserted; inheritance conflicts between parents, NOT-INHERITED lists and cross-kind name shadowing are left to C09 (not generated)",
